@@ -383,6 +383,10 @@ def slotSet (slots : List (SKey × Nat)) (k : SKey) (id : Nat) : List (SKey × N
 def removeKeys (slots : List (SKey × Nat)) (t : Tx) : List (SKey × Nat) :=
   (keysOf t).foldl slotErase slots
 
+/-- `conflictManager.removeTxOwned`: of the keys of `t`, only the entries held by `t` itself go -/
+def removeOwned (slots : List (SKey × Nat)) (t : Tx) : List (SKey × Nat) :=
+  slots.filter (fun e => !((keysOf t).contains e.1 && e.2 == t.id))
+
 /-- `conflictManager.AppendTx` (same walk) -/
 def appendKeys (slots : List (SKey × Nat)) (t : Tx) : List (SKey × Nat) :=
   (keysOf t).foldl (fun s k => slotSet s k t.id) slots
@@ -488,7 +492,12 @@ def cleanOne (p : Pool) (b : Tx) : Pool :=
           | some t => doRemove lt p t
           | none => p)
       | none => p) p
-  { p with slots := removeKeys p.slots b }
+  -- a still pooled copy of the block transaction is dropped; then only the index entries the block
+  -- transaction itself holds are cleared (entries of other pooled transactions sharing a key stay)
+  let p := match p.find b.id with
+    | some t => doRemove lt p t
+    | none => p
+  { p with slots := removeOwned p.slots b }
 
 /-- `cleanSideChainPowTx`: pool SideChainPow transactions whose signature does not verify
     against the on-duty arbiter (field `powok` ≠ 1) are removed. -/
